@@ -78,7 +78,7 @@ theorem equal_keys_equal_values (o : JoinOpts) (l r : Rec) (k : Bytes) (hlen : o
           have h2 := mapM_length _ _ _ hb
           rw [joinKey_injective a b (by omega) (by rw [hl, hr])]
 
-theorem flatMap_congr' {α β} (l : List α) (f g : α → List β) (h : ∀ x ∈ l, f x = g x) : l.flatMap f = l.flatMap g := by
+theorem flatMap_congr_on {α β} (l : List α) (f g : α → List β) (h : ∀ x ∈ l, f x = g x) : l.flatMap f = l.flatMap g := by
   induction l with
   | nil => rfl
   | cons x xs ih =>
@@ -113,7 +113,7 @@ theorem join_output (o : JoinOpts) (lefts rights : List Rec) :
     (by intro s r; rfl) [] rights
   rw [show (joinMachine o lefts).init = [] from rfl, h]
   congr 1
-  · exact flatMap_congr' _ _ _ (fun r _ => emit_is_contribution o lefts r)
+  · exact flatMap_congr_on _ _ _ (fun r _ => emit_is_contribution o lefts r)
 
 theorem mem_marks (o : JoinOpts) (lefts : List Rec) (rights : List Rec) (s : List Bytes) (k : Bytes) :
     k ∈ rights.foldl (markStep o lefts) s ↔ k ∈ s ∨ ∃ r ∈ rights, pairedKeyOf o (B o lefts) r = some k := by
@@ -224,7 +224,7 @@ theorem np_removes_exactly_pairs (o : JoinOpts) (lefts rights : List Rec) :
         ++ leftTail o lefts (rights.foldl (markStep o lefts) []) := by
   rw [join_output]
   congr 1
-  apply flatMap_congr'
+  apply flatMap_congr_on
   intro r _
   show contribution { o with emitPaired := false } lefts r = _
   unfold contribution
